@@ -1,5 +1,6 @@
 import WhatIs.Model.Ssh1
 import WhatIs.Model.RpmGuard
+import WhatIs.Model.OpenSsh
 import WhatIs.Model.ReadAll
 import WhatIs.Model.Dispatch
 import WhatIs.Model.Asn1Raw
@@ -724,5 +725,34 @@ theorem rpm_header_next (data : Bytes) (off off' : Nat) (h : RpmGuard.header dat
         have h2 : ¬ (RpmGuard.be32 data (off + 12) > data.length - off - 16 - 16 * RpmGuard.be32 data (off + 8)) :=
           fun x => hnl (Or.inr x)
         omega
+
+-- OpenSSH container ---------------------------------------------------------------------------------
+theorem kdf_no_panic (opts after : Bytes) : OpenSsh.parseKdfOptionsB true true opts after ≠ .panic := by
+  unfold OpenSsh.parseKdfOptionsB
+  simp only [if_true, true_and]
+  split
+  · simp
+  · split
+    · simp
+    · simp
+
+theorem openssh_no_panic (pubAttrs : Bytes → Option (List Attr)) (der : Bytes) :
+    (OpenSsh.parseB true true pubAttrs der).isPanic = false := by
+  unfold OpenSsh.parseB
+  split
+  · rfl
+  · split
+    · rfl
+    · split
+      · rfl
+      · split
+        · rfl
+        · split
+          · rfl
+          · simp only []
+            split
+            · rfl
+            · rfl
+            · rename_i h; exact absurd h (kdf_no_panic _ _)
 
 end WhatIs.Lemmas.Robust
